@@ -82,22 +82,11 @@ impl OutputFormat for TundraDraw {
                     return Err(SavingError::Only8BitCharactersSupported.into());
                 }
 
-                if (1..=6).contains(&ch) {
-                    // fake color change to represent control characters
-                    result.push(TUNDRA_COLOR_FOREGROUND);
-                    result.push(ch as u8);
-
-                    let rgb = buf.palette.get_rgb(attr.get_foreground());
-                    result.push(0);
-                    result.push(rgb.0);
-                    result.push(rgb.1);
-                    result.push(rgb.2);
-                    continue;
-                }
-
+                // characters 1..=6 would be read as commands: they always go with a color change
                 let mut cmd = 0;
                 let write_foreground = buf.palette.get_color(attr.get_foreground()).get_rgb() != buf.palette.get_color(cur_attr.get_foreground()).get_rgb()
-                    || attr.is_bold() != cur_attr.is_bold();
+                    || attr.is_bold() != cur_attr.is_bold()
+                    || (1..=6).contains(&ch);
                 if write_foreground {
                     cmd |= TUNDRA_COLOR_FOREGROUND;
                 }
